@@ -1,10 +1,114 @@
-"""C06 target "dsa" (SimNet) -- filled in once SimNet exists."""
+"""C06 target "dsa": DSA / A-DSA / dsatuto only ever move to a best-response value.
+
+Protocol-level bookkeeping (no private fields): the neighbour values a computation evaluates are read from
+SimNet's log of posted / delivered messages:
+  * DSA      evaluation k (cycle_count == k at selection time) uses the (k+1)-th dsa_value message of each neighbour;
+  * dsatuto  round cid (= cycle_count - 1 inside on_new_cycle) uses the message each neighbour stamped with cid;
+  * A-DSA    a tick uses the last value delivered from each neighbour before the tick.
+"""
 from hypothesis import strategies as st
 
+from .. import gen, localsearch, oracles
+from ..run import Outcome, UnderTestError
 
-def cases():
-    return st.nothing()
+
+@st.composite
+def cases(draw):
+    algo = draw(st.sampled_from(["dsa", "dsa", "adsa", "dsatuto"]))
+    desc = draw(gen.dcops(min_vars=2, max_vars=5, min_dom=1, max_dom=3, max_constraints=6, min_constraints=1,
+                          arities=(1, 2, 2, 3), var_costs=True, costs=gen.mixed_costs,
+                          objectives=("min",) if algo == "dsatuto" else ("min", "max")))
+    params = {}
+    if algo == "dsa":
+        params = {"variant": draw(st.sampled_from(["A", "B", "C"])), "p_mode": draw(st.sampled_from(["fixed", "arity"])),
+                  "probability": draw(st.sampled_from([0.3, 0.7, 1.0])), "stop_cycle": draw(st.integers(3, 8))}
+    elif algo == "adsa":
+        params = {"variant": draw(st.sampled_from(["A", "B", "C"])), "probability": draw(st.sampled_from([0.5, 1.0])),
+                  "period": 0.1}
+    return {"target": "dsa", "algo": algo, "dcop": desc, "params": params, "schedule": draw(gen.schedules(120)),
+            "seed": draw(st.integers(0, 10000))}
+
+
+def best_response(desc, x, others):
+    mode = desc["objective"]
+    xv = oracles.var_desc(desc, x)
+    cons = [c for c in desc["constraints"] if x in c["scope"]]
+    vals = []
+    for v in oracles.domain_of(desc, x):
+        a = dict(others, **{x: v})
+        vals.append((v, sum(oracles.constraint_value(desc, c, a) for c in cons) + oracles.var_cost(desc, xv, v)))
+    best = (min if mode == "min" else max)(c for _, c in vals)
+    return [v for v, c in vals if c == best], best
 
 
 def run_case(case):
-    raise NotImplementedError
+    desc, algo = case["dcop"], case["algo"]
+    labels = ["dsa-family", "algo:" + algo, "obj:" + desc["objective"]]
+    if algo == "dsa":
+        labels.append("variant:" + case["params"]["variant"])
+    nb = oracles.neighbours(desc)
+    moves = []   # (computation, step, new value, neighbour assignment used or None, note)
+    try:
+        def prep(r):
+            net = r.net
+            net.trace = []
+            first = set()
+            for name, c in r.comps.items():
+                def on_sel(val, cost, cycle, _n=name, _c=c):
+                    if _n not in first:
+                        first.add(_n)
+                        return  # the first selection of a computation is its initial (random) value
+                    if not nb[_n]:
+                        return
+                    others = None
+                    msgs = [(seq, src, m) for seq, st_, src, dst, m, cyc in net.trace
+                            if dst == _n and getattr(m, "type", "") in ("dsa_value", "adsa_value")]
+                    if algo == "dsa":
+                        per = {}
+                        for seq, src, m in msgs:
+                            per.setdefault(src, []).append(m.value)
+                        if all(len(per.get(s, [])) > cycle for s in nb[_n]):
+                            others = {s: per[s][cycle] for s in nb[_n]}
+                    elif algo == "dsatuto":
+                        cid = cycle - 1
+                        per = {src: m.value for seq, src, m in msgs if getattr(m, "cycle_id", None) == cid}
+                        if all(s in per for s in nb[_n]):
+                            others = {s: per[s] for s in nb[_n]}
+                    else:
+                        lastv = {}
+                        for step, src, dst, seq, m in net.delivered:
+                            if dst == _n and getattr(m, "type", "") == "adsa_value":
+                                lastv[src] = m.value
+                        if all(s in lastv for s in nb[_n]):
+                            others = {s: lastv[s] for s in nb[_n]}
+                    moves.append((_n, net.step, val, others))
+                c._on_value_selection = on_sel
+
+        # SimNet exposes the kind of the action being run through step_kind (set below)
+        r = localsearch.run_algo(desc, algo, case["params"], case["schedule"], case["seed"],
+                                 max_steps=4000 if algo != "dsa" else 60000,
+                                 tick_budget=40 if algo == "adsa" else 0, before_run=prep)
+        net = r.net
+        labels.append(net.schedule_label())
+        real_moves = [m for m in moves]
+        nontrivial = bool(real_moves)
+        if real_moves:
+            labels.append("moved")
+        if net.errors:
+            return Outcome(False, "%s: handler raised %r" % (algo, net.errors[0]), nontrivial, labels,
+                           info={"phase": "raise"})
+        for name, step, val, others in real_moves:
+            if val not in oracles.domain_of(desc, name):
+                return Outcome(False, "%s: %s selected %r, not in its domain" % (algo, name, val), nontrivial, labels,
+                               info={"phase": "domain"})
+            if others is None:
+                return Outcome(False, "%s: %s changed value at step %d before having a value from every neighbour" % (
+                    algo, name, step), nontrivial, labels, info={"phase": "premature"})
+            ref, best = best_response(desc, name, others)
+            if val not in ref:
+                return Outcome(False, "%s(%s): %s moved to %r at step %d; best responses to %r are %r (cost %r)" % (
+                    algo, desc["objective"], name, val, step, others, ref, best), nontrivial, labels,
+                    info={"phase": "move", "var": name})
+    except UnderTestError as e:
+        return Outcome(False, "raised %s at %s" % (e, e.frame), True, labels, info={"exc": e.exc_type})
+    return Outcome(True, "", nontrivial, labels, info={"moves": len(real_moves)})
